@@ -284,6 +284,15 @@ var zeroNode = map[string]interface{}{
 // ABI counterpart at all (they cannot be "equal to the ABI-decoded log").
 func wantRendering(sp *evSpec, vals []string) (s string, unmapped []string) {
 	ev := sp.event()
+	// the values are taken from an independent ABI decode of the very bytes that are put on the wire
+	if dec, err := ev.Inputs.UnpackValues(pack(sp, vals)); err == nil && len(dec) == len(vals) {
+		vals = append([]string(nil), vals...)
+		for k := range dec {
+			vals[k] = text(dec[k])
+		}
+	} else {
+		panic(fmt.Sprintf("ABI decode of the generated log failed: %v", err))
+	}
 	zt := reflect.TypeOf(zeroNode[sp.name])
 	zv := reflect.New(zt).Elem()
 	var parts []string
@@ -297,7 +306,7 @@ func wantRendering(sp *evSpec, vals []string) (s string, unmapped []string) {
 		found := false
 		for k, in := range ev.Inputs {
 			if in.Name == an {
-				t = text(parseValue(in.Type, vals[k]))
+				t = vals[k]
 				found = true
 			}
 		}
